@@ -409,14 +409,17 @@ class ChangeScenario(Scenario):
                 self.kill_and_restart(env)
             elif action == 'pause':
                 p = env.memo.get('pipeline')
-                env.loop.create_task(p.pause_toggle.turn_to(True), name='user pause')
+                if p is not None and getattr(p, 'pause_toggle', None) is not None:     # (no process up, or not that far yet: nothing to pause)
+                    env.loop.create_task(p.pause_toggle.turn_to(True), name='user pause')
             elif action == 'pausestatus':     # the operator is told to pause in the very moment somebody touches the object
                 p = env.memo.get('pipeline')
-                env.loop.create_task(p.pause_toggle.turn_to(True), name='user pause')
+                if p is not None and getattr(p, 'pause_toggle', None) is not None:
+                    env.loop.create_task(p.pause_toggle.turn_to(True), name='user pause')
                 w.merge(K, 'ns', args[0], {'status': {'foreign': args[1]}})
             elif action == 'resume':
                 p = env.memo.get('pipeline')
-                env.loop.create_task(p.pause_toggle.turn_to(False), name='user resume')
+                if p is not None and getattr(p, 'pause_toggle', None) is not None:
+                    env.loop.create_task(p.pause_toggle.turn_to(False), name='user resume')
             elif action == 'compact':
                 w.compact(K)
             elif action in ('relist', 'reconnect', 'reset', 'bookmark'):
